@@ -177,6 +177,13 @@ def Cls.ofName? : String → Option Cls
     A non-blocking acquisition observed in the lock log is therefore a behaviour the model does not have. -/
 def tryAcquired : List Cls := []
 
+/-- (schedule point reached, lock class): where a thread may have acquired the SAME lock instance more than once since
+    its previous schedule point. Everywhere else the code between two schedule points takes each lock at most once — the
+    assumption under which that code is ONE atomic action of Layer B (two separate critical sections on one lock, e.g. a
+    `remove` followed by an `insert` on the same DashMap shard, let another thread in between). Validated against the
+    lock log of the real crate on every run. -/
+def repeatAllowed : List (String × String) := []
+
 /-- schedule points of the hooks that are blocking channel operations: nothing may be held there -/
 def blockingChannelPoints : List String := ["cmd.send", "buf.send_shutdown", "worker.recv", "worker.drain", "consumer.recv"]
 
